@@ -6,6 +6,7 @@ import (
 	"fmt"
 	"strings"
 	"sync"
+	"sync/atomic"
 	"testing"
 	"time"
 
@@ -150,8 +151,8 @@ func mcOpenRunNoSetup(dir string) *mcReopen {
 func TestMC_C21(t *testing.T) {
 	c := verifmc.Start(t, "C21", "model_checking")
 	defer c.Finish()
-	c.SetRule("base part: chain A finalizes a node-pledge / mint (consensus-class singleton) snapshot, chain B finalizes N ordinary snapshots, both through the real cosiHandleFinalization on an on-disk store; for every crash cut k (commit k and later fail) every interleaving of the two goroutines at commit granularity up to the preemption bound; after each: close, reopen, real SetupNode, then the invariant 'consensus snapshot durable => last recorded consensus operation is it'. " +
-		"history part: product {B = mint | pledge} x {recorded consensus transaction A re-included by a snapshot of another chain before B: no | yes} x {timestamps of the other chain's ordinary snapshots relative to recorded consensus snapshot A: older | equal | newer (thorough: also ordered pairs)}; history = prefix [A finalized+recorded, re-inclusion R] then thread A [B] || thread B [ordinary snapshots]; every crash cut of the WHOLE history (prefix commits included) x every interleaving of the concurrent part at commit granularity up to the preemption bound; after each: node abandoned, real SetupNode over the committed state, then 'consensus record == last finalized consensus snapshot in topological order (a re-inclusion of the recorded transaction does not move it)'")
+	c.SetRule("base part: chain A finalizes a node-pledge / mint (consensus-class singleton) snapshot, chain B finalizes N ordinary snapshots, both through the real cosiHandleFinalization on an on-disk store; for every crash cut k (commit k and later fail) every interleaving of the two goroutines at commit granularity up to the on-disk preemption bound (quick 0: both non-preemptive orders; thorough 2); after each: close, reopen, real SetupNode, then the invariant 'consensus snapshot durable => last recorded consensus operation is it'. " +
+		"history part: the base workloads again in memory (recorded = genesis) plus the product {B = mint | pledge} x {recorded consensus transaction A re-included by a snapshot of another chain before B: no | yes} x {timestamps of the other chain's ordinary snapshots relative to recorded consensus snapshot A: older | equal | newer (thorough: also ordered pairs)}; history = prefix [A finalized+recorded, re-inclusion R] then thread A [B] || thread B [ordinary snapshots]; every crash cut of the WHOLE history (prefix commits included) x every interleaving of the concurrent part at commit granularity up to the preemption bound; after each: node abandoned, real SetupNode over the committed state, then 'consensus record == last finalized consensus snapshot in topological order (a re-inclusion of the recorded transaction does not move it)'")
 	c.Assume("a Badger transaction commit is the atomic durable unit (crash points are commit boundaries of the snapshot DB)", "commits are the only scheduling points; kernel/topology.go's sequence mutex and the store mutex are modelled by the scheduler", "consensus-class operations exercised: node pledge (through the complete cosiHandleFinalization) and mint (through the post-validation tail: takeover lock, persist, AddSnapshot, reloadConsensusState); remove/custodian update share the pledge branch of reloadConsensusState",
 		"history part: the store is an in-memory Badger that survives the crash as committed (no close/reopen; the base part does the on-disk reopen); the re-inclusion R goes through the post-validation tail (AddSnapshot + reloadConsensusState) and lands before B is proposed (a re-inclusion validated before and written after B's record is a live-path matter, not a crash matter)")
 	tStart := time.Now()
@@ -159,36 +160,98 @@ func TestMC_C21(t *testing.T) {
 	defer mcRemoveAll(base)
 	nOrdinary := verifmc.Pick(c, 1, 2)
 	bound := verifmc.Pick(c, 1, 2)
+	// quick: the on-disk units run the non-preemptive orders of every cut only;
+	// the preempting interleavings of the same two workloads are explored in
+	// memory (history scenarios "recorded=genesis"). An on-disk execution costs
+	// 10-30x an in-memory one (four Badger directory databases opened and closed).
+	diskBound := verifmc.Pick(c, 0, 2)
 
 	var seq int64
 	var mu sync.Mutex
-	var execs int64
+	var execs, histExecs int64
+	var baseBusy, histBusy time.Duration
 	markerOK := 0
 	kinds := []string{"pledge", "mint"}
 	totals := make([]int64, len(kinds))
 	scenarios := c21Scenarios(c.Thorough())
 	info := &c21HistInfo{total: map[string]int64{}, prefix: map[string]int64{}, reached: map[string]int64{}}
 
-	// ---- probe runs without cut: number of commits of each workload ----
-	c.ParallelN(len(kinds)+len(scenarios), "probe runs", func(_, i int) {
-		if i < len(kinds) {
-			kind := kinds[i]
-			ex := &verifmc.Explorer{C: c, Bound: 0, Name: kind + ":probe"}
-			ex.Body = func(s *verifmc.Sched, report func(key, desc string)) string {
-				return c21Body(s, kind, 0, nOrdinary, base, &seq, &mu, report)
+	// one unit = one workload with one crash cut (0 = no crash), all schedules
+	runBase := func(kind string, cut int64) *verifmc.Explorer {
+		t0 := time.Now()
+		ex := &verifmc.Explorer{C: c, Bound: diskBound, Name: fmt.Sprintf("%s:cut=%d", kind, cut)}
+		if cut == 0 {
+			ex.Name = kind + ":no-crash"
+		}
+		ex.Body = func(s *verifmc.Sched, report func(key, desc string)) string {
+			return c21Body(s, kind, cut, nOrdinary, base, &seq, &mu, report)
+		}
+		ex.Run()
+		mu.Lock()
+		execs += ex.Executions
+		baseBusy += time.Since(t0)
+		for o := range ex.Outcomes {
+			if strings.Contains(o, "sc-durable=true marker-is-sc=true") {
+				markerOK++
 			}
-			ex.Run()
+		}
+		mu.Unlock()
+		return ex
+	}
+	runHist := func(sc c21Scenario, cut int64) *verifmc.Explorer {
+		t0 := time.Now()
+		ex := &verifmc.Explorer{C: c, Bound: bound, Name: fmt.Sprintf("%s:cut=%d", sc.name(), cut)}
+		if cut == 0 {
+			ex.Name = sc.name() + ":no-crash"
+		}
+		ex.Body = func(s *verifmc.Sched, report func(key, desc string)) string {
+			return c21HistBody(s, sc, cut, info, report)
+		}
+		ex.Run()
+		mu.Lock()
+		execs += ex.Executions
+		histExecs += ex.Executions
+		histBusy += time.Since(t0)
+		mu.Unlock()
+		return ex
+	}
+
+	// ---- base part, on disk: its own small pool (the directory databases of one
+	// process slow each other down), running beside the in-memory history part.
+	// Per workload: the no-crash unit first (it tells the number of commits),
+	// then the cuts 1..commits.
+	var dwg sync.WaitGroup
+	for i, kind := range kinds {
+		dwg.Add(1)
+		go func() {
+			defer dwg.Done()
+			ex := runBase(kind, 0)
 			for o := range ex.Outcomes {
 				fmt.Sscanf(o, "commits=%d", &totals[i])
 			}
-			return
-		}
-		sc := scenarios[i-len(kinds)]
-		ex := &verifmc.Explorer{C: c, Bound: 0, Name: sc.name() + ":probe"}
-		ex.Body = func(s *verifmc.Sched, report func(key, desc string)) string {
-			return c21HistBody(s, sc, 0, info, report)
-		}
-		ex.Run()
+			var next atomic.Int64
+			var wg sync.WaitGroup
+			for w := 0; w < 4; w++ {
+				wg.Add(1)
+				go func() {
+					defer wg.Done()
+					for {
+						cut := next.Add(1)
+						if cut > totals[i] || c.Expired("crash cuts (on-disk units)") {
+							return
+						}
+						runBase(kind, cut)
+					}
+				}()
+			}
+			wg.Wait()
+		}()
+	}
+
+	// ---- history part, in memory: no-crash units, then every cut of every scenario
+	c.ParallelN(len(scenarios), "no-crash runs", func(_, i int) {
+		sc := scenarios[i]
+		ex := runHist(sc, 0)
 		var pre, tot int64
 		for o := range ex.Outcomes {
 			fmt.Sscanf(o, "prefix=%d commits=%d", &pre, &tot)
@@ -197,28 +260,23 @@ func TestMC_C21(t *testing.T) {
 		info.prefix[sc.name()], info.total[sc.name()] = pre, tot
 		info.mu.Unlock()
 	})
-
-	// ---- every (workload, crash cut) is one unit; the on-disk units first ----
+	fmt.Printf("C21-TIMING in-memory no-crash units done at %v\n", time.Since(tStart))
 	type unit struct {
-		kind string       // base part
-		sc   *c21Scenario // history part
-		cut  int64
+		sc  *c21Scenario
+		cut int64
 	}
 	var units []unit
-	for i, kind := range kinds {
-		c.Require(totals[i] >= 6, "%s probe found only %d commits", kind, totals[i])
-		c.Set("commits_in_workload_"+kind, totals[i])
-		for cut := int64(1); cut <= totals[i]+1; cut++ { // total+1 = no crash
-			units = append(units, unit{kind: kind, cut: cut})
-		}
-	}
 	var histCuts, histPrefixCuts int64
 	for i := range scenarios {
 		sc := &scenarios[i]
 		pre, tot := info.prefix[sc.name()], info.total[sc.name()]
 		want := int64(4) // A: lock, persist, snapshot, record
-		c.Require(pre >= want && tot >= pre+6, "%s probe found only %d prefix / %d total commits", sc.name(), pre, tot)
-		for cut := int64(1); cut <= tot+1; cut++ {
+		if sc.NoA {
+			want = 0
+		}
+		c.Require(pre >= want && tot >= pre+6, "%s no-crash run found only %d prefix / %d total commits", sc.name(), pre, tot)
+		histCuts++ // the no-crash unit
+		for cut := int64(1); cut <= tot; cut++ {
 			units = append(units, unit{sc: sc, cut: cut})
 			histCuts++
 			if cut <= pre {
@@ -226,52 +284,22 @@ func TestMC_C21(t *testing.T) {
 			}
 		}
 	}
-	var histExecs int64
-	var baseBusy, histBusy time.Duration
-	tUnits := time.Now()
-	fmt.Printf("C21-TIMING probes done at %v\n", time.Since(tStart))
-	c.ParallelN(len(units), "crash cuts", func(_, i int) {
-		u := units[i]
-		t0 := time.Now()
-		defer func() {
-			mu.Lock()
-			if u.sc == nil {
-				baseBusy += time.Since(t0)
-			} else {
-				histBusy += time.Since(t0)
-			}
-			mu.Unlock()
-		}()
-		if u.sc == nil {
-			ex := &verifmc.Explorer{C: c, Bound: bound, Name: fmt.Sprintf("%s:cut=%d", u.kind, u.cut)}
-			ex.Body = func(s *verifmc.Sched, report func(key, desc string)) string {
-				return c21Body(s, u.kind, u.cut, nOrdinary, base, &seq, &mu, report)
-			}
-			ex.Run()
-			mu.Lock()
-			execs += ex.Executions
-			for o := range ex.Outcomes {
-				if strings.Contains(o, "sc-durable=true marker-is-sc=true") {
-					markerOK++
-				}
-			}
-			mu.Unlock()
-			return
-		}
-		ex := &verifmc.Explorer{C: c, Bound: bound, Name: fmt.Sprintf("%s:cut=%d", u.sc.name(), u.cut)}
-		ex.Body = func(s *verifmc.Sched, report func(key, desc string)) string {
-			return c21HistBody(s, *u.sc, u.cut, info, report)
-		}
-		ex.Run()
-		mu.Lock()
-		execs += ex.Executions
-		histExecs += ex.Executions
-		mu.Unlock()
-	})
-	fmt.Printf("C21-TIMING units wall %v; worker-busy base(on-disk) %v for %d execs, history(in-memory) %v for %d execs\n", time.Since(tUnits), baseBusy, execs-histExecs, histBusy, histExecs)
+	c.ParallelN(len(units), "crash cuts (in-memory units)", func(_, i int) { runHist(*units[i].sc, units[i].cut) })
+	fmt.Printf("C21-TIMING in-memory units done at %v\n", time.Since(tStart))
+	dwg.Wait()
+	var baseCuts int64
+	for i, kind := range kinds {
+		c.Require(totals[i] >= 6, "%s no-crash run found only %d commits", kind, totals[i])
+		c.Set("commits_in_workload_"+kind, totals[i])
+		baseCuts += totals[i] + 1
+	}
+	fmt.Printf("C21-TIMING all units done at %v; worker-busy base(on-disk) %v for %d execs, history(in-memory) %v for %d execs\n", time.Since(tStart), baseBusy, execs-histExecs, histBusy, histExecs)
 	c.Set("executions", execs)
 	c.Set("preemption_bound", bound)
+	c.Set("preemption_bound_on_disk_units", diskBound)
 	c.Set("ordinary_snapshots", nOrdinary)
+	c.Set("base_crash_cuts", baseCuts)
+	c.Set("base_executions", execs-histExecs)
 	c.Set("history_scenarios", len(scenarios))
 	c.Set("history_crash_cuts", histCuts)
 	c.Set("history_crash_cuts_in_prefix", histPrefixCuts)
